@@ -34,6 +34,23 @@ type schedule struct {
 	SlowKind  string        `json:"slow_kind"`  // "all" | "gossip" | "deal" | "response" | "justification"
 	SlowDelay time.Duration `json:"slow_delay"` // extra delay for deliveries of that kind to the slow node
 	Crash     bool          `json:"crash"`      // one non-leader node (the one with the smallest key among them) crashes when the execution starts
+	Lose      *lostLink     `json:"dropped_link,omitempty"`
+}
+
+// lostLink is a single faulty transmission: the ONE direct transmission of the sender's own
+// bundle of the given kind to one receiver is lost (or arrives after the phase has ended).
+// Re-sends of that bundle by other nodes (the echo broadcast) are not touched. Ranks are
+// positions in ascending public-key order: of the receiver among the participants of the new
+// group, of the sender among the nodes that send that kind of bundle (dealers = the previous
+// group in a resharing).
+type lostLink struct {
+	Kind     string `json:"kind"` // "deal" | "response"
+	FromRank int    `json:"from_rank"`
+	ToRank   int    `json:"to_rank"`
+	Late     bool   `json:"late"` // delivered after the phase instead of never
+	From     string `json:"from,omitempty"`
+	To       string `json:"to,omitempty"`
+	Hits     int    `json:"transmissions_hit"`
 }
 
 type rnode struct {
@@ -59,6 +76,9 @@ type bus struct {
 	sched    schedule
 	slowAddr string
 	deadAddr string
+	lose     *lostLink
+	loseIdx  uint32                     // index carried by the sender's own bundle
+	lateBy   time.Duration              // how late a 'late' transmission is
 	recorded map[string]*pdkg.DKGPacket // first response bundle sent by each node (for the replay witness)
 	indexOf  map[string]uint32          // DKG index of each node (replay witness)
 	stats    map[string]int
@@ -156,6 +176,15 @@ func (c *client) BroadcastDKG(ctx context.Context, p net.Peer, in *pdkg.DKGPacke
 		}
 		c.b.mu.Unlock()
 	}
+	if late, lost := c.b.faulty(c.from, p.Address(), in); lost {
+		return nil, errors.New("transmission lost")
+	} else if late > 0 {
+		c.b.mu.Lock()
+		c.b.inflight++
+		c.b.mu.Unlock()
+		time.Sleep(late)
+		c.b.done()
+	}
 	if c.b.isDead(c.from) || c.b.isDead(p.Address()) {
 		// a crashed node: its bundles never leave and nothing reaches it
 		c.b.mu.Lock()
@@ -164,6 +193,36 @@ func (c *client) BroadcastDKG(ctx context.Context, p net.Peer, in *pdkg.DKGPacke
 		return nil, errors.New("connection refused")
 	}
 	return c.b.deliverDKG(c.from, p, in)
+}
+
+// faulty decides whether this transmission is the scripted lost / late one: the sender's OWN
+// bundle (its index is the sender's) on the scripted link; only the first such transmission.
+func (b *bus) faulty(from, to string, in *pdkg.DKGPacket) (time.Duration, bool) {
+	b.mu.Lock()
+	defer b.mu.Unlock()
+	l := b.lose
+	if l == nil || l.From != from || l.To != to || l.Hits > 0 {
+		return 0, false
+	}
+	switch l.Kind {
+	case "deal":
+		if d := in.GetDkg().GetDeal(); d == nil || d.GetDealerIndex() != b.loseIdx {
+			return 0, false
+		}
+	case "response":
+		if r := in.GetDkg().GetResponse(); r == nil || r.GetShareIndex() != b.loseIdx {
+			return 0, false
+		}
+	default:
+		return 0, false
+	}
+	l.Hits++
+	if l.Late {
+		b.stats["late/"+l.Kind]++
+		return b.lateBy, false
+	}
+	b.stats["lost/"+l.Kind]++
+	return 0, true
 }
 
 func (b *bus) isDead(addr string) bool {
@@ -288,6 +347,7 @@ type epochObs struct {
 	Subsets  int            `json:"signing_subsets"`
 	Wall     float64        `json:"wall_s"`
 	Stats    map[string]int `json:"bus"`
+	Loss     *lostLink      `json:"dropped_link,omitempty"`
 }
 
 type world struct {
@@ -389,6 +449,84 @@ func (w *world) setSchedule(s schedule) {
 	w.bus.stats = map[string]int{}
 }
 
+func byKey(ns []*rnode) []*rnode {
+	out := append([]*rnode{}, ns...)
+	for i := 1; i < len(out); i++ {
+		for j := i; j > 0 && string(out[j-1].part.Key) > string(out[j].part.Key); j-- {
+			out[j-1], out[j] = out[j], out[j-1]
+		}
+	}
+	return out
+}
+
+// armLoss resolves the scripted lost transmission of the current schedule to two nodes.
+// senders: the nodes that send that kind of bundle, with the index their own bundle carries
+// (dealer index for deals = index in the previous group, or rank in a first DKG; share index for
+// responses = rank among the new members).
+func (w *world) armLoss(members []*rnode, dealers []*rnode, dealerIdx map[string]uint32) {
+	w.bus.mu.Lock()
+	defer w.bus.mu.Unlock()
+	w.bus.lose = nil
+	l := w.bus.sched.Lose
+	if l == nil {
+		return
+	}
+	recv := byKey(members)
+	var send []*rnode
+	idx := map[string]uint32{}
+	if l.Kind == "deal" {
+		send = byKey(dealers)
+		idx = dealerIdx
+	} else {
+		send = recv
+		for i, n := range recv {
+			idx[n.addr] = uint32(i)
+		}
+	}
+	if len(recv) < 2 || len(send) == 0 {
+		return
+	}
+	to := recv[((l.ToRank%len(recv))+len(recv))%len(recv)]
+	from := send[((l.FromRank%len(send))+len(send))%len(send)]
+	if from == to { // the next sender in key order
+		for i, n := range send {
+			if n == from {
+				from = send[(i+1)%len(send)]
+				break
+			}
+		}
+	}
+	if from == to {
+		return
+	}
+	cp := *l
+	cp.From, cp.To, cp.Hits = from.addr, to.addr, 0
+	for i, n := range recv {
+		if n == to {
+			cp.ToRank = i
+		}
+	}
+	for i, n := range send {
+		if n == from {
+			cp.FromRank = i
+		}
+	}
+	w.bus.lose = &cp
+	w.bus.loseIdx = idx[from.addr]
+	w.bus.lateBy = w.sc.Phase + 600*time.Millisecond
+}
+
+// lossOf reports the resolved lost transmission of the current epoch (nil if none).
+func (w *world) lossOf() *lostLink {
+	w.bus.mu.Lock()
+	defer w.bus.mu.Unlock()
+	if w.bus.lose == nil {
+		return nil
+	}
+	cp := *w.bus.lose
+	return &cp
+}
+
 func permuted(ps []*pdkg.Participant, perm []int) []*pdkg.Participant {
 	out := make([]*pdkg.Participant, 0, len(ps))
 	for _, i := range perm {
@@ -476,7 +614,7 @@ func runScenario(sc scenario, seed int64) (res []epochObs) {
 	w := &world{sc: sc, sch: sch, bus: &bus{rng: rand.New(rand.NewSource(seed + 1)), nodes: map[string]*rnode{}, stats: map[string]int{}}}
 	defer w.close()
 	fail := func(epoch int, err error, obs []nodeObs, exp int, t time.Time) []epochObs {
-		return append(res, epochObs{Scenario: sc.Name, Epoch: epoch, Err: err.Error(), Nodes: obs, Expected: exp, Wall: time.Since(t).Seconds(), Stats: w.bus.snapshot()})
+		return append(res, epochObs{Scenario: sc.Name, Epoch: epoch, Err: err.Error(), Nodes: obs, Expected: exp, Wall: time.Since(t).Seconds(), Stats: w.bus.snapshot(), Loss: w.lossOf()})
 	}
 	for i := 0; i < sc.N; i++ {
 		if _, err := w.addNode(rng, i); err != nil {
@@ -505,6 +643,11 @@ func runScenario(sc scenario, seed int64) (res []epochObs) {
 	// ---------------- epoch 1 ----------------
 	start := time.Now()
 	w.setSchedule(sc.Sched)
+	rank1 := map[string]uint32{}
+	for i, n := range byKey(w.nodes) {
+		rank1[n.addr] = uint32(i)
+	}
+	w.armLoss(w.nodes, w.nodes, rank1)
 	genesis := start.Unix() + sc.GenesisIn
 	err = cmd(leader, id, &pdkg.DKGCommand{Command: &pdkg.DKGCommand_Initial{Initial: &pdkg.FirstProposalOptions{
 		Timeout: timestamppb.New(start.Add(50 * time.Second)), Threshold: uint32(sc.Thr), PeriodSeconds: uint32(sc.Period), Scheme: sc.Scheme,
@@ -537,7 +680,7 @@ func runScenario(sc scenario, seed int64) (res []epochObs) {
 	if err != nil {
 		return fail(1, err, obs, len(alive), start)
 	}
-	res = append(res, epochObs{Scenario: sc.Name, Epoch: 1, Nodes: obs, Expected: len(alive), Wall: time.Since(start).Seconds(), Stats: w.bus.snapshot()})
+	res = append(res, epochObs{Scenario: sc.Name, Epoch: 1, Nodes: obs, Expected: len(alive), Wall: time.Since(start).Seconds(), Stats: w.bus.snapshot(), Loss: w.lossOf()})
 	if sc.Reshare == "" {
 		return res
 	}
@@ -561,6 +704,14 @@ func runScenario(sc scenario, seed int64) (res []epochObs) {
 		remaining = remaining[:len(remaining)-1]
 	}
 	w.setSchedule(sc.Sched2)
+	oldIdx := map[string]uint32{}
+	oldMembers := append([]*rnode{}, w.nodes[:sc.N]...)
+	for _, n := range oldMembers {
+		if nd := oldGroup.Find(n.kp.Public); nd != nil {
+			oldIdx[n.addr] = nd.Index
+		}
+	}
+	w.armLoss(append(append([]*rnode{}, remaining...), joiners...), oldMembers, oldIdx)
 	toParts := func(ns []*rnode) []*pdkg.Participant {
 		out := make([]*pdkg.Participant, len(ns))
 		for i, n := range ns {
@@ -627,6 +778,6 @@ func runScenario(sc scenario, seed int64) (res []epochObs) {
 	if err != nil {
 		return fail(2, err, obs2, len(members), start2)
 	}
-	res = append(res, epochObs{Scenario: sc.Name, Epoch: 2, Nodes: obs2, Expected: len(members), Wall: time.Since(start2).Seconds(), Stats: w.bus.snapshot()})
+	res = append(res, epochObs{Scenario: sc.Name, Epoch: 2, Nodes: obs2, Expected: len(members), Wall: time.Since(start2).Seconds(), Stats: w.bus.snapshot(), Loss: w.lossOf()})
 	return res
 }
